@@ -15,6 +15,21 @@ use serde_json::{json, Value};
 
 /// a tree-shaped library (block references form a tree: path enumeration stays linear)
 pub fn gen_library(seed: u64, n: usize) -> BTreeMap<String, String> {
+    if seed == 0 {
+        // the flat library: no links at all, so every path has the same rank and the 100 listed
+        // entries are decided by the tie-breaks alone
+        let mut lib = BTreeMap::new();
+        for i in 0..n {
+            let k = match i % 3 {
+                0 => format!("n{}", i),
+                1 => format!("d1/n{}", i),
+                _ => format!("d2/sub/n{}", i),
+            };
+            let title = if i % 2 == 0 { "Same title".to_string() } else { format!("Title {}", i % 5) };
+            lib.insert(k, format!("# {}\n\ntext of note {}\n\n## Section 0\n\nmore\n", title, i));
+        }
+        return lib;
+    }
     let mut rng = StdRng::seed_from_u64(seed);
     let key = |i: usize| -> String {
         match i % 5 {
@@ -94,8 +109,31 @@ fn dump(db: &Database) -> Value {
     let mut paths: Vec<String> = g.paths().iter().map(|p| p.ids().iter().map(|id| g.get_text(*id)).collect::<Vec<_>>().join(" > ")).collect();
     paths.sort();
     let search = |q: &str| -> Vec<String> { db.global_search(q).iter().map(|p| format!("{}|{}|{}", p.search_text, p.key, p.line)).collect() };
+    // the same search repeated in this process: work stealing splits the path list differently
+    // from run to run, the answer must not follow it
+    let mut repeat_stable = true;
+    for q in ["", "Title 1", "Same title", "Section 0"] {
+        let first = search(q);
+        for _ in 0..12 {
+            if search(q) != first {
+                repeat_stable = false;
+            }
+        }
+    }
+    // ... and the same search inside pools of other sizes
+    for q in ["", "Title 1", "Same title", "Section 0"] {
+        let first = search(q);
+        for t in [1usize, 2, 3, 5, 8] {
+            let pool = rayon::ThreadPoolBuilder::new().num_threads(t).build().unwrap();
+            for _ in 0..3 {
+                if pool.install(|| search(q)) != first {
+                    repeat_stable = false;
+                }
+            }
+        }
+    }
     let sections = json!({
-        "export": export, "titles": titles, "backlinks": backlinks, "paths": paths,
+        "export": export, "titles": titles, "backlinks": backlinks, "paths": paths, "search_repeat_stable": repeat_stable,
         "search_empty": search(""), "search_title": search("Title 1"), "search_same": search("Same title"), "search_sec": search("Section 0"),
     });
     let mut d = serde_json::Map::new();
